@@ -361,6 +361,22 @@ def cd2(ctx):
                 ctx.check(True, '%s:hdr-cmp#%d' % (b.path, seen), where(b, cs.point), 'checked_sub(HEADER_LEN): Some exactly when remaining >= HEADER_LEN', '')
     if n < 3:
         ctx.missing('comparisons', 'expected 3 comparisons with HEADER_LEN in the frame writer/reader, found %d' % n)
+    # on the writer side the quantity compared is a FRESH reading of the block writer's position
+    # (`wrt.num_bytes_remaining_in_block()`), never a copy kept in the frame writer: a cached figure is only as good as
+    # the last update, and an update skipped on an error path (padding written, frame write failed) makes every later
+    # frame pad or not pad at the wrong place
+    for b in ctx.f.bodies.values():
+        if b.generic_dup() or not b.path.startswith('frame::writer::FrameWriter'):
+            continue
+        fl = flow_of(b)
+        k = 0
+        for c in const_comparisons(ctx, b, 'frame::header::HEADER_LEN'):
+            k += 1
+            lv = expr_leaves(b, c['x'])
+            fresh = any(x[0] == 'call' and x[1].orig.endswith('BlockWrite::num_bytes_remaining_in_block') for x in lv)
+            cached = sorted({mem_loc(x[2]) for x in lv if x[0] == 'place' and (mem_loc(x[2]) or '').startswith('FrameWriter.') and mem_loc(x[2]) != 'FrameWriter.wrt'})
+            ctx.check(fresh and not cached, '%s:hdr-room-fresh#%d' % (b.path, k), where(b, c['point']), 'the header-room test reads the block writer\'s position afresh',
+                      'the header-room test is made on %s instead of a fresh reading of the block writer\'s position: after a failed write the cached figure is stale and frames are padded / not padded at the wrong place' % (cached or 'a value not read from the block writer'))
     # polarity on the writer side: padding is written exactly when `remaining < HEADER_LEN`
     for b in ctx.f.bodies.values():
         if b.generic_dup() or not b.path.startswith('frame::writer::FrameWriter'):
